@@ -281,7 +281,11 @@ def kw_gefac(draw, m):
 def kw_gruptree(draw, m):
     # attach a (possibly new) group below an existing one, keeping the tree acyclic:
     # only groups without wells may become parents of groups (Eclipse rule), new groups are leaves
-    child = draw(st.sampled_from(["G1", "G2", "G3", "G4", "N1"]))
+    # (N1..N3 never get wells, so they can become parents: trees of depth > 2 and moves between non-FIELD parents)
+    child = draw(st.sampled_from(["G1", "G2", "G3", "G4", "N1", "N2", "N3", "N2", "N3"]))
+    deep = sorted(c for c, p in m.groups.items() if p != "FIELD" and c != "FIELD")
+    if deep and draw(st.booleans()):
+        child = draw(st.sampled_from(deep))         # move a group that hangs below a non-FIELD parent
     wellgroups = {W["group"] for W in m.wells.values()}
     def desc(g):
         out = {g}
@@ -292,7 +296,11 @@ def kw_gruptree(draw, m):
     cands = sorted(g for g in m.groups if g not in wellgroups and g not in desc(child) and g != child)
     if "FIELD" not in cands:
         cands.append("FIELD")
+    # a node group that does not exist yet may be named as parent (GRUPTREE creates it below FIELD)
+    cands += [n for n in ("N1", "N2", "N3") if n not in m.groups and n != child]
     parent = draw(st.sampled_from(cands))
+    if parent not in m.groups:
+        m.groups[parent] = "FIELD"
     m.groups[child] = parent
     return "GRUPTREE\n '%s' '%s' /\n/\n" % (child, parent)
 
